@@ -70,6 +70,8 @@ type c15Dag struct {
 	twins       []int // nodes created as twins, waiting to join their level
 	codecs      map[uint64]bool
 	reachable   map[int]bool
+
+	gone int // >0: the caller's (lenient) link system has no block for that node and answers traversal.SkipMe
 }
 
 func (d *c15Dag) cidOf(i int) cid.Cid { return lab.ToCid(d.nodes[i].cid) }
@@ -511,6 +513,9 @@ func (d *c15Dag) linkSystem(log *c15Log) linking.LinkSystem {
 		if !ok {
 			return nil, fmt.Errorf("c15 store: block %x not found", raw)
 		}
+		if d.gone > 0 && i == d.gone {
+			return nil, traversal.SkipMe{} // a partial DAG: the walker is told to step over the absent block
+		}
 		log.add(raw)
 		return bytes.NewReader(d.nodes[i].data), nil
 	}
@@ -521,6 +526,9 @@ func (d *c15Dag) linkSystem(log *c15Log) linking.LinkSystem {
 type c15Store struct {
 	d   *c15Dag
 	log *c15Log
+	// twin: the store is keyed by multihash and hands a block out under the CID it was stored with —
+	// another codec than the link's. What is written is framed by the CID the traversal asked for.
+	twin bool
 }
 
 func (s c15Store) Get(_ context.Context, c cid.Cid) (blocks.Block, error) {
@@ -530,6 +538,13 @@ func (s c15Store) Get(_ context.Context, c cid.Cid) (blocks.Block, error) {
 		return nil, format.ErrNotFound{Cid: c}
 	}
 	s.log.add(raw)
+	if s.twin && c.Version() == 1 {
+		codec := uint64(cid.Raw)
+		if c.Prefix().Codec == cid.Raw {
+			codec = cid.DagCBOR
+		}
+		return blocks.NewBlockWithCid(s.d.nodes[i].data, cid.NewCidV1(codec, c.Hash()))
+	}
 	return blocks.NewBlockWithCid(s.d.nodes[i].data, c)
 }
 
@@ -586,6 +601,11 @@ func c15AnyChooser(datamodel.Link, linking.LinkContext) (datamodel.NodePrototype
 // number only decides where the generated link budget sits (exactly enough,
 // one short, …); no oracle uses it.
 func c15RefLinkLoads(d *c15Dag, sel datamodel.Node, once bool, chooser traversal.LinkTargetNodePrototypeChooser) (int, error) {
+	return c15RefLinkLoadsFrom(d, d.root, sel, once, chooser)
+}
+
+// c15RefLinkLoadsFrom counts the link loads of one traversal starting at node `from`.
+func c15RefLinkLoadsFrom(d *c15Dag, from int, sel datamodel.Node, once bool, chooser traversal.LinkTargetNodePrototypeChooser) (int, error) {
 	log := &c15Log{}
 	ls := d.linkSystem(log)
 	ls.TrustedStorage = true
@@ -593,7 +613,7 @@ func c15RefLinkLoads(d *c15Dag, sel datamodel.Node, once bool, chooser traversal
 	if err != nil {
 		return 0, err
 	}
-	lnk := cidlink.Link{Cid: d.cidOf(d.root)}
+	lnk := cidlink.Link{Cid: d.cidOf(from)}
 	np, _ := chooser(lnk, linking.LinkContext{})
 	rn, err := ls.Load(linking.LinkContext{}, lnk, np)
 	if err != nil {
